@@ -32,8 +32,10 @@ MANIFEST = dict(
                 "against the real classes and the real server.main closures on every run; the oracle checks the prefix "
                 "relation on the real run after every step and completeness after a fair drain."),
     level_note=("Trusted: Lean kernel; the socket/pipe environment model; the harness fakes. Completeness ('eventually "
-                "delivered') is checked on the real code at quiescence by the fair-drain oracle and proved only as far as "
-                "stated in Props/C01.lean (see _partial items). Real kernel TCP and select are outside."),
+                "delivered'): proved is that no reachable state is stuck - a world that none of the loop's own moves changes "
+                "has delivered everything (C02_no_stuck_state, C02_stuck_is_complete in Props/C02.lean, over the same model) - "
+                "and that no wake-up is lost per handler (C02_wakeup_*); that the real loop reaches such a state within bounded "
+                "work is checked on the real code by the real-loop drain oracle, not proved. Real kernel TCP and select are outside."),
     technique="Lean 4 proof (stream-decomposition invariant over all schedules) + differential replay on the real tunnel classes",
 )
 
